@@ -262,9 +262,9 @@ class ElementList(MutableSequence):
         if self._can_add_child(child):
             try:
                 if by_name_index == -1:
-                    self.indexes[child.name].append(child)
-                else:
-                    self.indexes[child.name].insert(by_name_index, child)
+                    # keep the by-name index in list order: count the same-named children before `index`
+                    by_name_index = len([c for c in self.list[:index] if c.name == child.name])
+                self.indexes[child.name].insert(by_name_index, child)
             except KeyError:
                 self.indexes[child.name] = [child]
             self.list.insert(index, child)
